@@ -71,6 +71,14 @@ var ( //nolint:gochecknoglobals
 // and binding; heimdall terminates the process when a listener cannot bind) and are never handed
 // out twice by one process.
 func FreePort(host string) int {
+	p, l := reservePort(host)
+	l.Close()
+
+	return p
+}
+
+// reservePort picks a free port and keeps it bound until the returned listener is closed.
+func reservePort(host string) (int, net.Listener) {
 	portMu.Lock()
 	defer portMu.Unlock()
 
@@ -85,11 +93,9 @@ func FreePort(host string) int {
 			continue
 		}
 
-		l.Close()
-
 		portUsed[p] = true
 
-		return p
+		return p, l
 	}
 }
 
@@ -142,8 +148,21 @@ func start(opts Options) (*App, error) {
 		ownDir = true
 	}
 
-	mainPort := FreePort(host)
-	mgmtPort := FreePort(host)
+	// the ports stay reserved while the application is constructed and are released right before
+	// it starts listening (heimdall exits the process if it cannot bind)
+	mainPort, mainHold := reservePort(host)
+	mgmtPort, mgmtHold := reservePort(host)
+	released := false
+	release := func() {
+		if !released {
+			released = true
+
+			mainHold.Close()
+			mgmtHold.Close()
+		}
+	}
+
+	defer release()
 
 	svc := map[string]any{"host": host, "port": mainPort}
 
@@ -223,6 +242,7 @@ func start(opts Options) (*App, error) {
 
 	a.app = fx.New(fxOpts...)
 	if err := a.app.Err(); err != nil {
+		release()
 		a.cleanup()
 
 		return nil, err
@@ -230,6 +250,8 @@ func start(opts Options) (*App, error) {
 
 	ctx, cancel := context.WithTimeout(context.Background(), 60*time.Second)
 	defer cancel()
+
+	release()
 
 	if err := a.app.Start(ctx); err != nil {
 		a.cleanup()
